@@ -42,6 +42,8 @@ func main() {
 		return
 	case "c01":
 		runC01(r, a, out)
+	case "c04":
+		runC04(r, a, out)
 	case "c05":
 		runC05(r, a, out)
 	case "", "eval":
